@@ -826,22 +826,8 @@ class SBytes(object):
             if len(a) != len(b):
                 return z3.BoolVal(False)
             return z3.And(*[x == y for x, y in zip(a, b)]) if a else z3.BoolVal(True)
-        # align atom by atom, splitting literals against single bytes
-        xs, ys = _explode(self.atoms), _explode(o.atoms)
-        if len(xs) != len(ys):
-            return None
-        fs = []
-        for x, y in zip(xs, ys):
-            if isinstance(x, Blob) and isinstance(y, Blob):
-                f = _key_eq(x.key, y.key)
-                if f is None:
-                    return None
-                fs.append(f)
-            elif isinstance(x, Blob) or isinstance(y, Blob):
-                return None
-            else:
-                fs.append(x == y)
-        return z3.And(*fs) if fs else z3.BoolVal(True)
+        # align atom by atom; a blob without a counterpart must be empty (sufficient condition)
+        return _align(_explode(self.atoms), _explode(o.atoms), 0)
 
     def __eq__(self, o):
         if not isinstance(o, (SBytes, bytes, bytearray)):
@@ -862,6 +848,17 @@ class SBytes(object):
         if len(self.atoms) == 1 and isinstance(self.atoms[0], Blob) and \
                 isinstance(self.atoms[0].decoded, SStr):
             return self.atoms[0].decoded
+        if len(self.atoms) == 0:
+            return ''
+        if len(self.atoms) == 1 and isinstance(self.atoms[0], Blob):
+            k = self.atoms[0].key
+            if k[0] == 'slice' and isinstance(k[1], tuple) and k[1] and k[1][0] == 'utf8':
+                # a proper piece of a UTF-8 encoding: CPython either raises UnicodeDecodeError (cut inside a
+                # character) or returns some string -- both outcomes are possible, so both are explored
+                E = engine()
+                if E.decide(E.new_bool('utf8.cut-inside-char').t):
+                    raise UnicodeDecodeError('utf-8', b'', 0, 1, 'unexpected end of data (model)')
+                return E.new_str('partial')
         raise Unsupported('decode of %r' % (self,))
 
     def __repr__(self):
@@ -872,6 +869,46 @@ class SBytes(object):
                 return '<%s>' % z3.simplify(a[1])
             return repr(a)
         return 'SBytes[%s]' % ' '.join(r(a) for a in self.atoms)
+
+
+def _len_zero(b):
+    if isinstance(b.length, int):
+        return z3.BoolVal(b.length == 0)
+    return b.length.t == 0
+
+
+def _align(xs, ys, depth):
+    """Formula implying that the two exploded atom lists denote equal byte strings, or None."""
+    if depth > 12:
+        return None
+    if not xs and not ys:
+        return z3.BoolVal(True)
+    x = xs[0] if xs else None
+    y = ys[0] if ys else None
+    xb, yb = isinstance(x, Blob), isinstance(y, Blob)
+    if xb and yb:
+        f = _key_eq(x.key, y.key)
+        if f is not None:
+            rest = _align(xs[1:], ys[1:], depth + 1)
+            return None if rest is None else z3.And(f, rest)
+        a = _align(xs[1:], ys, depth + 1)
+        b = _align(xs, ys[1:], depth + 1)
+        opts = []
+        if a is not None:
+            opts.append(z3.And(_len_zero(x), a))
+        if b is not None:
+            opts.append(z3.And(_len_zero(y), b))
+        return z3.Or(*opts) if opts else None
+    if xb:
+        a = _align(xs[1:], ys, depth + 1)
+        return None if a is None else z3.And(_len_zero(x), a)
+    if yb:
+        b = _align(xs, ys[1:], depth + 1)
+        return None if b is None else z3.And(_len_zero(y), b)
+    if x is None or y is None:
+        return z3.BoolVal(False)
+    rest = _align(xs[1:], ys[1:], depth + 1)
+    return None if rest is None else z3.And(x == y, rest)
 
 
 def _explode(atoms):
@@ -891,8 +928,10 @@ def sym_byte(term8):
 
 
 def byte_to_int(term8, mode):
-    """Unsigned value of a BV8 term as an SInt in the given mode."""
+    """Unsigned value of a BV8 term as an SInt in the given mode (a Python int if it is a numeral)."""
     term8 = z3.simplify(term8)
+    if z3.is_bv_value(term8):
+        return term8.as_long()
     if mode == 'bv':
         return SInt(z3.ZeroExt(W - 8, term8), 0, 255)
     return SInt(z3.BV2Int(term8, False), 0, 255)
